@@ -38,3 +38,19 @@ Print Assumptions C17_first_registration.
 Print Assumptions C17_consistent_init.
 Print Assumptions C17_consistent_create.
 Print Assumptions C17_consistent_frame.
+
+From HT Require Import Proofs.WFProofs Proofs.RegHistProofs.
+Theorem C17_step : forall w o w',
+  WF w -> RegOK w -> submitter o <> w_fac w -> exec w o = Ok w' -> RegOK w'.
+Proof. exact exec_preserves_RegOK. Qed.
+Print Assumptions C17_step.
+
+Theorem C17_history : forall ops w,
+  WF w -> RegOK w -> no_factory_submitter w ops -> WF (run w ops) /\ RegOK (run w ops).
+Proof. exact run_preserves_RegOK. Qed.
+Print Assumptions C17_history.
+
+From HT Require Import World.Observe Proofs.InitProofs.
+Theorem C17_start : forall L ubal fbal tdec, RegOK (init_world L ubal fbal tdec).
+Proof. exact init_world_RegOK. Qed.
+Print Assumptions C17_start.
